@@ -119,6 +119,8 @@ for _pid in ("C06", "C07", "C08"):
                        " A further unit runs `treetools grammar` itself on generated treebanks (export, TIGER-XML, discobrackets; utf-8/latin-1/utf-16; plain or gzip with one or two members; optionally after another command with other options in the same process), decodes the written PMCFG/RCG and lexicon files with independent decoders and applies the same oracle to the decoded grammar.")
 for _pid in ("C09", "C10", "C16"):
     CLI_ROUTE[_pid] = ("; command-line cases also in-process (runpy), every case after earlier ones with other options", " The command-line unit exists in two forms: a fresh interpreter per case, and many more cases through runpy in one process, so that options of earlier commands would show if they leaked.")
+CLAIMED["C12"]["tech"] += "; exhaustive enumeration of all set partitions of up to 9/11 tokens into flat root children"
+CLAIMED["C12"]["text"] += " An exhaustive unit deals the tokens 1..n (n <= 9 quick, 11 thorough) out to flat root children in every possible way (all set partitions: every interleaving and crossing), singletons as bare tokens and as unary nodes, and compares each result with the reference; a further random unit scatters tokens over 2-6 root children with inner constituents."
 for _pid, (tech, text) in CLI_ROUTE.items():
     CLAIMED[_pid]["tech"] += tech
     CLAIMED[_pid]["text"] += text
